@@ -1,6 +1,7 @@
 import Driver.Util
 import Driver.Ops.Netio
 import QsmtpModel.DataFraming
+import QsmtpModel.Spec.Lines
 open QsmtpModel QsmtpModel.Netio QsmtpModel.DataFraming
 namespace Driver.Ops.DataFraming
 
@@ -14,6 +15,14 @@ def handle (op : String) (args : List String) : Option String :=
       let cmds := if o.verdict = .died then [] else commandLines o.inn o.src (2 * s.length + 4)
       some s!"{v} errs={o.errors} first={match o.firstErr with | some e => Driver.Ops.Netio.errStr e | none => "-"} tail={if o.termAfterError then 1 else 0} msg={Driver.hexList o.lines} cmds={",".intercalate (cmds.map Driver.Ops.Netio.rdStr)}"
     | _, _ => some "bad-op"
+  | "frame", [stream] =>
+    -- the specification of the DATA phase on the bytes alone (Spec/Lines.lean: frameData)
+    match fromHex stream with
+    | some s =>
+      let F := frameData (s.length + 1) s false []
+      let v := match F.verdict with | .queued => "queued" | .refused => "refused" | .died => "died"
+      some s!"{v} msg={Driver.hexList F.lines} rest={hexOrDash F.rest} cmds={",".intercalate ((goodLines F.rest).map fun l => "L" ++ hexOrDash l)}"
+    | none => some "bad-op"
   | _, _ => none
 
 end Driver.Ops.DataFraming
